@@ -334,7 +334,7 @@ func Explore(mk func() Driver, o Options, kf *Findings) *Stats {
 				if s.changed {
 					st.Changed++
 				}
-				if len(s.outcome) >= 4 && s.outcome[:4] == "HALT" && s.outcome != "HALT:false" {
+				if len(s.outcome) >= 4 && s.outcome[:4] == "HALT" && s.outcome != "HALT:false" && s.outcome != "HALT:noop" {
 					st.PerOpOK[s.opname]++
 				}
 				for _, sv := range s.soft {
